@@ -30,7 +30,7 @@ func (c12) Rule() string {
 }
 func (c12) Batches(string) int { return 32 }
 func (c12) Required(string) []string {
-	return []string{"compared", "configs_run", "generated", "probes", "cycles_rejected", "unknown_rejected", "privacy_probes", "module_bodies_executed", "imports_of_already_loaded_module", "child_vm_imports"}
+	return []string{"compared", "configs_run", "generated", "probes", "cycles_rejected", "unknown_rejected", "privacy_probes", "module_bodies_executed", "imports_of_already_loaded_module", "child_vm_imports", "file_importer_runs"}
 }
 func (c12) Assumptions() []string {
 	return []string{"internal/ref module semantics (body once per run, cached value, deep copy on store as the runtime documents for copied module values)",
@@ -391,6 +391,59 @@ func (m c12) Run(c *core.Ctx) {
 			}
 		}
 		c.Nontrivial("privacy nested")
+	}
+	// file modules through the repository's FileImporter (module names are paths derived from the importing file's
+	// directory): the same file reached from the main script and from other files is ONE module, for every kind of
+	// working directory the host may configure (empty, ".", relative, absolute)
+	fileGraphs := []struct {
+		main  string
+		files map[string]string
+	}{
+		{"global L\ns := import(\"./shared.ugo\")\ns.inc()\na := import(\"./a.ugo\")\nL(a.peek())\nL(import(\"./shared.ugo\").inc())\nreturn [s.inc(), a.peek()]",
+			map[string]string{"shared.ugo": "global L\nL(\"body-shared\")\nn := 0\nreturn {inc: func() { n++; return n }, get: func() { return n }}\n",
+				"a.ugo": "global L\nL(\"body-a\")\nsh := import(\"./shared.ugo\")\nsh.inc()\nreturn {peek: func() { return sh.get() }}\n"}},
+		{"global L\na := import(\"./a.ugo\")\nb := import(\"./b.ugo\")\nL(a(), b())\nreturn [import(\"./leaf.ugo\")(), a(), b()]",
+			map[string]string{"leaf.ugo": "global L\nL(\"body-leaf\")\nn := 0\nreturn func() { n++; return n }\n",
+				"a.ugo": "global L\nL(\"body-a\")\nl := import(\"./leaf.ugo\")\nreturn func() { return l() }\n",
+				"b.ugo": "global L\nL(\"body-b\")\nreturn func() { return import(\"./leaf.ugo\")() + 100 }\n"}},
+	}
+	for gi, fg := range fileGraphs {
+		idx++
+		if idx%c.NBatch != c.Batch {
+			continue
+		}
+		fg := fg
+		if !c.Begin(func() string { return "file importer graph\n" + fg.main }) {
+			continue
+		}
+		// reference: module identity by import text (all files live in one directory)
+		mods := map[string]string{}
+		for name, src := range fg.files {
+			mods["./"+name] = src
+		}
+		p := &Program{Src: fg.main, Modules: mods, Tags: []string{"file-importer"}}
+		r := runRef(p, nil, ugo.Map{"G": ugo.Int(3)}, 300000)
+		if r.Discard != "" {
+			c.Inconclusive("file importer graph discarded by the reference: " + r.Discard)
+			continue
+		}
+		for _, wd := range []string{"", ".", "mods", "mods/sub", "/abs/dir"} {
+			for _, opt := range []bool{true, false} {
+				mm := ugo.NewModuleMap().SetExtImporter(memFileImporter(fg.files, wd, nil))
+				cr := safeCompile([]byte(fg.main), ugo.CompilerOptions{ModuleMap: mm, NoOptimize: opt})
+				if cr.err != nil || cr.panicv != "" {
+					c.Violation("C12|file-importer|compile-fails", "a file module graph does not compile with WorkDir "+fmt.Sprintf("%q", wd)+": "+fmt.Sprint(cr.err)+cr.panicv, c12wit{Program: p, Config: "workdir=" + wd})
+					continue
+				}
+				vm := runVM(cr.bc, nil, ugo.Map{"G": ugo.Int(3)}, false)
+				c.Count("file_importer_runs")
+				if ok, why := sameOutcome(vm, r); !ok {
+					c.Violation("C12|file-importer|"+strings.SplitN(why, ":", 2)[0], "file modules: the same file imported from the main script and from another file is not one module (WorkDir "+fmt.Sprintf("%q", wd)+"): "+why, c12wit{Program: p, Config: "workdir=" + wd, Why: why, Got: vm, Want: r.Outcome})
+					break
+				}
+			}
+		}
+		c.Nontrivial(fmt.Sprintf("filegraph-%d", gi))
 	}
 	// generated graphs
 	n := c.Pick(150, 15000)
